@@ -144,9 +144,13 @@ def run_one(job):
         cmd = [os.path.join(ROOT, "tools", "mut.py"), prop, file, old, new]
         label = f"{file}: {note}"
     else:
-        prop, path, expect, note = payload
+        prop, path, expect, note, tier = payload
         cmd = [os.path.join(ROOT, "tools", "mut.py"), prop, "--patch", path]
         label = f"seeded/{os.path.basename(os.path.dirname(path))}: {note}"
+        if tier != "quick":
+            # a change only the thorough tier can reach (recorded in the seed's meta.json)
+            cmd += ["--tier", tier]
+            label += f" [{tier} tier]"
     res = subprocess.run(cmd, capture_output=True, text=True)
     first = res.stdout.splitlines()[0] if res.stdout else "NO OUTPUT " + res.stderr[-200:]
     kinds = sorted({ln.split("kind=")[1].split()[0] for ln in res.stdout.splitlines() if "kind=" in ln})
@@ -164,7 +168,7 @@ def main():
         for prop in meta.get("run_checks", [meta["property"]]):
             if args.only and prop != args.only:
                 continue
-            jobs.append(("seed", (prop, os.path.join(os.path.dirname(meta_path), "patch.diff"), meta.get("expect", "caught"), meta.get("needs", ""))))
+            jobs.append(("seed", (prop, os.path.join(os.path.dirname(meta_path), "patch.diff"), meta.get("expect", "caught"), meta.get("needs", ""), meta.get("tier", "quick"))))
     with concurrent.futures.ThreadPoolExecutor(args.j) as ex:
         results = list(ex.map(run_one, jobs))
     lines = [
